@@ -89,6 +89,21 @@ def body_txn(desc, F, *args):
         i += 1
     if not _same_quads(_snapshot(base), model):
         return "store content differs from the model before %s" % desc["end"]
+    if desc.get("mid"):
+        # a transaction boundary in the middle: what follows starts a new transaction on the content reached
+        if desc["mid"] == "commit":
+            aud.commit()
+            init = list(model)
+        else:
+            aud.rollback()
+            model = list(init)
+        if not _same_quads(_snapshot(base), model):
+            return "%s in the middle left the wrong content" % desc["mid"]
+        for op in desc["ops2"]:
+            model = _apply(aud, model, tuple(op), _t(F, args, i))
+            i += 1
+        if not _same_quads(_snapshot(base), model):
+            return "store content differs from the model in the second transaction"
     if desc["end"] == "rollback":
         aud.rollback()
         if not _same_quads(_snapshot(base), init):
@@ -212,6 +227,21 @@ def obligations(tier, seed):
             seen.add(key)
             c = cost(init, ops)
             txn(list(init), ops, end, {1: 60, 2: 90, 3: 200, 4: 600 if tier == "quick" else 900}.get(c, 1500))
+    # a boundary in the middle: ops, commit|rollback, ops, rollback (the second transaction must be undone to the boundary,
+    # and the first entry of the new undo log is the first change after the boundary)
+    mids = []
+    for init in (["g1"], []):
+        for o1 in (("rm000", "g1"), ("add", "g1")):
+            for o2s in ((("rm000", "g1"), ("add", "g1")), (("add", "g1"), ("rm000", "g1")), (("rm111", "any"),), (("add", "g2"), ("rm000", "any"))):
+                for mid in ("commit", "rollback"):
+                    mids.append((init, (o1,), mid, o2s))
+    if tier == "quick":
+        mids = [m for m in mids if len(m[0]) + 1 + len(m[3]) <= 3] + rnd.sample([m for m in mids if len(m[0]) + 1 + len(m[3]) == 4], 4)
+    for init, ops, mid, ops2 in mids:
+        c = len(init) + len(ops) + len(ops2)
+        obs.append(dict(oid="txn-mid/%s/%s/%s/%s" % ("+".join(init) or "empty", "-".join(_opname(o) for o in ops), mid, "-".join(_opname(o) for o in ops2)),
+                        family="txn", desc={"init": list(init), "ops": [list(o) for o in ops], "mid": mid, "ops2": [list(o) for o in ops2], "end": "rollback"},
+                        sig=_sig(3 * c), budget={2: 90, 3: 200}.get(c, 600 if tier == "quick" else 900)))
     # two wrappers
     base_ops = [("add", "g1"), ("rm000", "g1")]
     two = []
@@ -242,6 +272,8 @@ def bounds(tier):
         "txn": "initial content 0-2 symbolic triples in g1/g2; k<=2 ops over add/remove(8 pattern shapes) x {g1,g2,no graph}"
                " (quick: core subset for k=2) plus seeded k=3 sample (%s); rollback and commit endings"
                % ("24" if tier == "quick" else "250, and 60 of k=4"),
+        "txn-mid": "a boundary in the middle: 1 op, commit or rollback, 1-2 ops, rollback (restores the content at the boundary); "
+                   "initial content 0-1 triples",
         "two": "two AuditableStore wrappers on one Memory, <=2 concrete-triple ops each, every interleaving (seeded sample beyond 2 ops)",
         "outside": "quoted statements, threads (rollbackLock), stores other than Memory, transactions longer than 4 operations",
     }
